@@ -1235,7 +1235,8 @@ class CryptContext:
         # convert numbers to strings
         elif isinstance(value, numeric_types):
             if isinstance(value, float) and key[2] == "vary_rounds":
-                value = (f"{value:.2f}").rstrip("0") if value else "0"
+                # NOTE: repr() round-trips floats exactly ("%.2f" silently truncated e.g. 0.125 -> "0.12")
+                value = repr(value) if value else "0"
             else:
                 value = str(value)
 
